@@ -1,4 +1,6 @@
 """C20 Build configurations"""
+import ecanon
+import elin
 import evlm
 import esort
 import eeval
@@ -51,4 +53,11 @@ def run(ctx):
                 "`false` edge of a dominating blocked.contains test: two swaps never restructure a common level.")
     na = esort.check_acquire_guard(ctx, F)
     ctx.floor("E-PERM.acquire", "position acquisitions in the worker loop", na, 2)
+    ctx.explain("E-LIN.rcguard: try_remove_node (both managers) reaches the removal from the unique table only with previous "
+                "count 2, prepared manager and re-read count 1. E-CANON.ptrsplit: in the pointer-based manager terminal "
+                "operations lie on the !is_inner() edge and inner-node operations on the is_inner() edge.")
+    nrg = elin.check_removal_guards(ctx, F)
+    ctx.floor("E-LIN.rcguard", "try_remove_node bodies", nrg, 2)
+    nps = ecanon.check_ptr_split(ctx, F)
+    ctx.floor("E-CANON.ptrsplit", "is_inner() branches of the pointer-based manager", nps, 6)
     ctx.not_decided = "observational equivalence of results and node counts across configurations"
